@@ -71,7 +71,7 @@ def template_source(rnd, n, branches=True, extended=False):
         r64, r32 = rnd.choice(REG64), rnd.choice(REG32)
         idx = rnd.choice([r for r in REG64 if r != "rsp"])
         z = lambda: f"%zmm{rnd.randrange(32)}"
-        return rnd.choice([
+        return [
             f"\tmov %fs:0x{rnd.randrange(0x600):x}(,%{idx},8),%{r64}",
             f"\tmovq $0x0,%fs:0x{rnd.randrange(0x600):x}(,%{idx},8)",
             f"\tmov %gs:(%{r64},%{idx},2),%{r32}",
@@ -108,12 +108,25 @@ def template_source(rnd, n, branches=True, extended=False):
             f"\tenter $0x{rnd.randrange(0x100):x},$0x0",
             f"\tout %al,$0x{rnd.randrange(0x100):x}",
             f"\tpextrw $0x{rnd.randrange(8)},%xmm{rnd.randrange(16)},%{r32}",
-        ])
+            # the pseudo index register of a SIB byte without an index
+            # (as does not know %riz / %eiz: encoded by hand -- mov disp8(base,%riz,1),%rcx; lea 0x0(%rsi,%riz,1),%rsi;
+            #  mov (%eax,%eiz,1),%eax)
+            f"\t.byte 0x48,0x8b,0x4c,0x2{rnd.choice([0, 1, 2, 3, 6, 7])},0x{rnd.randrange(1, 0x80):02x}",
+            "\t.byte 0x48,0x8d,0x74,0x26,0x00",
+            "\t.byte 0x67,0x8b,0x04,0x20",
+            # direct branches whose mnemonic fills objdump's six-character mnemonic column
+            f"\tloopne .{rnd.choice(['+', '-'])}0x{rnd.randrange(2, 0x70):x}",
+            f"\tloope .+0x{rnd.randrange(2, 0x70):x}",
+            f"\tjrcxz .+0x{rnd.randrange(2, 0x70):x}",
+            f"\txbegin f+{rnd.randrange(0, 4000)}",
+            # undecodable bytes for which objdump still prints a memory operand behind `(bad)'
+            f"\t.byte 0xdb,0x34,0x{rnd.randrange(0x40):02x}",
+        ]
 
     for _ in range(n):
         kind = rnd.randrange(9)
         if extended and rnd.random() < 0.25:
-            out.append(special())
+            out.append(rnd.choice(special()))
             continue
         if kind == 5 and not branches:
             kind = 6
@@ -137,4 +150,6 @@ def template_source(rnd, n, branches=True, extended=False):
             out.append(f"\tlea {mem()},%{rnd.choice(REG64)}")
         else:
             out.append(f"\tshld ${rnd.choice(['0x1', '0x4'])},%{rnd.choice(REG64)},{mem()}")
+    if extended:      # every special form at least once
+        out.extend(special())
     return "\n".join(out) + "\n"
